@@ -4,7 +4,7 @@
    matches H cfg outs declared = some declared value, its optional `algo:` prefix aside (unprefix), is the
    hex digest of the outputs under plz's own output hash or under a configured checker;
    enforced = no hashes declared, or matches;  event_good = what one build step of a history must satisfy. *)
-From PlzV Require Import Base.Harness Model.C35 Proof.C35 Proof.C35_Gen.
+From PlzV Require Import Base.Harness Model.C35 Proof.C35 Proof.C35_Fg Proof.C35_Gen.
 
 Definition C35_statement : Prop :=
   (* (1) one verification: for every hash function, configuration, set of outputs and declared list
@@ -27,7 +27,13 @@ Definition C35_statement : Prop :=
          real mismatch and leaves no output, no record and no cache entry; a cache restore is accepted only
          after the same verification *)
   /\ (forall H, H_sized H -> forall cfg k steps,
-        Forall (event_good H cfg) (run H cfg k empty_state steps)).
+        Forall (event_good H cfg) (run H cfg k empty_state steps))
+  (* (4) the filegroups of one package, any number of them sharing any files, through histories of invocations
+         (each with its own memo of files already put in place), deletions of plz-out and same-package
+         generating targets that are Built / restored from the cache (Cached) / Unchanged / Reused: a filegroup
+         with declared hashes that builds successfully leaves outputs that hash to a declared value *)
+  /\ (forall H, H_sized H -> forall cfg d steps, hist_consistent steps = true ->
+        Forall (fun r => let '(_, evs, _) := r in Forall (fg_event_strict H cfg) evs) (fg_hist H cfg d steps)).
 
 (* The unchanged code violates (3) in three ways (all reproduced on the real plz by harness/cmd/c35):
    a filegroup whose outputs are already in place is not verified; a hash list with the same concatenation
@@ -35,7 +41,7 @@ Definition C35_statement : Prop :=
    outputs are compared with the memoised output hash of the rejected artifacts. *)
 Theorem C35_refuted : ~ C35_statement.
 Proof.
-  intros (_ & _ & _ & _ & _ & S).
+  intros (_ & _ & _ & _ & _ & S & _).
   exact (refute_history Filegroup w_fg_steps w_fg_bad (S toyH toyH_sized default_cfg Filegroup w_fg_steps)).
 Qed.
 Print Assumptions C35_refuted.
@@ -54,6 +60,14 @@ Proof.
   vm_compute. reflexivity.
 Qed.
 
+(* (4) fails in the same way as (3) does for a single filegroup - outputs already in place when the invocation
+   starts (here: a same-package generator that is Reused) are not verified - and in no other way: see C35_partial. *)
+Theorem C35_refuted_fg_in_place :
+  ~ (forall H, H_sized H -> forall cfg d steps, hist_consistent steps = true ->
+       Forall (fun r => let '(_, evs, _) := r in Forall (fg_event_strict H cfg) evs) (fg_hist H cfg d steps)).
+Proof. exact fw_refutes_strict. Qed.
+Print Assumptions C35_refuted_fg_in_place.
+
 (* Everything else holds, for all inputs and all histories outside the three classes. *)
 Theorem C35_partial :
   (forall H, H_sized H -> forall cfg outs declared,
@@ -68,10 +82,27 @@ Theorem C35_partial :
   /\ (forall l1 h l2, unprefixed (l1 ++ h :: l2) = unprefixed l1 ++ unprefix h :: unprefixed l2)
   /\ (forall H, H_sized H -> forall cfg k steps,
         defect_class H cfg k steps = None ->
-        Forall (event_good H cfg) (run H cfg k empty_state steps)).
+        Forall (event_good H cfg) (run H cfg k empty_state steps))
+  (* (4) for every source state and every order of builders sharing files: a successful filegroup with declared
+         hashes was verified and its outputs hash to a declared value, or every one of its outputs was already in
+         place (same content as its source, no same-package source Built or Cached) when the INVOCATION started;
+         a failed one leaves none of its outputs, and failed on a real mismatch whenever it saw all its outputs *)
+  /\ (forall H, H_sized H -> forall cfg d steps, hist_consistent steps = true ->
+        Forall (fun r => let '(d0, evs, _) := r in
+          Forall (fun e =>
+            (fr_ok (fe_res e) = true -> g_declared (fe_def e) <> [] ->
+               (exists outs, fr_seen (fe_res e) = Some outs /\ fg_outs (fe_after e) (g_srcs (fe_def e)) = Some outs
+                             /\ matches H cfg outs (g_declared (fe_def e)))
+               \/ fg_in_place H cfg d0 (fe_def e) = true)
+            /\ (fr_ok (fe_res e) = false ->
+                  (forall sr, In sr (g_srcs (fe_def e)) -> flookup (s_path sr) (fe_after e) = None)
+                  /\ (forall outs, fr_seen (fe_res e) = Some outs ->
+                         g_declared (fe_def e) <> [] /\ ~ matches H cfg outs (g_declared (fe_def e))))) evs)
+          (fg_hist H cfg d steps)).
 Proof.
   exact (conj check_iff (conj unprefix_idem (conj unprefix_plain (conj unprefix_no_colon
-        (conj unprefixed_pointwise history_good))))).
+        (conj unprefixed_pointwise (conj history_good
+          (fun H HS cfg d steps C => fg_history_good H HS cfg steps d C))))))).
 Qed.
 Print Assumptions C35_partial.
 
@@ -104,7 +135,26 @@ Example C35_nonvacuous_history :
   /\ Forall (event_good toyH default_cfg) (run toyH default_cfg Genrule empty_state nv_steps).
 Proof.
   split; [vm_compute; reflexivity|]. split; [vm_compute; reflexivity|].
-  apply (proj2 (proj2 (proj2 (proj2 (proj2 C35_partial)))) toyH toyH_sized). vm_compute. reflexivity.
+  apply (proj1 (proj2 (proj2 (proj2 (proj2 (proj2 C35_partial))))) toyH toyH_sized). vm_compute. reflexivity.
+Qed.
+
+(* a consistent filegroup history with a cache-restored source that is rejected and then accepted, and pairs of
+   filegroups sharing a file in both orders: part (4) of the partial theorem applies and the outcomes are not trivial;
+   the in-place witness is consistent too and does fall in the excepted class *)
+Example C35_nonvacuous_filegroups :
+  hist_consistent fw_steps = true
+  /\ fg_obs fw_steps =
+     [([(false, true)], [None; None]);
+      ([(true, true)], [Some (OFile (s "hi")); None]);
+      ([(true, true); (false, true)], [None; None]);
+      ([(false, true); (false, true)], [None; None]);
+      ([(true, true); (true, true)], [None; Some (OFile (s "hi"))])]
+  /\ hist_consistent fw_inplace_steps = true
+  /\ fg_in_place toyH default_cfg [(1%N, OFile (s "hi"))] {| g_declared := [s "00"]; g_srcs := [fw_src TReused] |} = true
+  /\ fg_in_place toyH default_cfg [(1%N, OFile (s "hi"))] {| g_declared := [s "00"]; g_srcs := [fw_src TCached] |} = false.
+Proof.
+  split; [exact (proj1 fw_steps_obs)|]. split; [exact (proj2 fw_steps_obs)|]. split; [exact (proj1 fw_inplace_obs)|].
+  vm_compute. split; reflexivity.
 Qed.
 
 (* the three witnesses fall in the three classes *)
@@ -122,8 +172,13 @@ Example C35_tied_to_source :
   /\ (forall h, ~ In Gen.C35Hashes.unprefix_sep (unprefix h))
   /\ Gen.C35Hashes.unprefix_works_on_copy = true
   /\ Gen.C35Hashes.filegroup_check_guarded_by_changed = true
-  /\ Gen.C35Hashes.output_hash_memoised = true.
+  /\ Gen.C35Hashes.output_hash_memoised = true
+  /\ (forall t, exists r, gen_rank t = Some r /\ Gen.C35Hashes.fg_src_state_triggers r = triggers t)
+  /\ (forall b, Gen.C35Hashes.fg_memo_hit b = memo_hit b)
+  /\ Gen.C35Hashes.fg_memo_store_same = Some memo_store_same
+  /\ Gen.C35Hashes.fg_memo_store_built = Some memo_store_built.
 Proof.
   exact (conj gen_sizes (conj (proj2 gen_defaults) (conj (proj1 gen_defaults) (conj gen_unprefix_sep_free
-        (conj (proj1 (proj2 gen_shapes)) (conj (proj1 (proj2 (proj2 (proj2 (proj2 gen_shapes))))) (proj2 (proj2 (proj2 (proj2 (proj2 gen_shapes))))))))))).
+        (conj (proj1 (proj2 gen_shapes)) (conj (proj1 (proj2 (proj2 (proj2 (proj2 gen_shapes))))) (conj (proj2 (proj2 (proj2 (proj2 (proj2 gen_shapes)))))
+        (conj gen_state_triggers (conj (proj1 gen_memo) (conj (proj1 (proj2 gen_memo)) (proj1 (proj2 (proj2 gen_memo))))))))))))).
 Qed.
